@@ -4,8 +4,28 @@
 
    WHAT IS MODELLED
 
-   A record is  [fmt, testing, name, sev, caller, cfile, width, minw, msg, attrs, lc]  where
+   A record is  [fmt, testing, name, sev, caller, cfile, width, minw, msg, attrs, lc, form, env]  where
      msg    is a sequence of character CLASSES (Classes below; "LF" separates lines),
+     form   how the record and its attribute lists reach the library (Forms below):
+              "thru"      a finished record handed over with Entry.WriteThru(ctx, sev, time, pc, msg, Attrs) - what
+                          the log/slog handler, the adapters and bridges do;  attribute lists are Attr values,
+              "call-attr" a logging CALL  l.Logit(ctx, sev, msg, a1, a2, ...)  whose arguments are Attr values
+                          (groups: slog.NewGroupedAttr(key, members...)),
+              "call-kv"   a logging CALL whose arguments are alternating KEY, VALUE pairs - the first form the
+                          README shows: l.Info("m", "k", 1, "user", "bob") - at top level and inside every group
+                          (slog.Group(key, "k", 1, ...)); a group is itself handed over as one Attr argument.
+              The expectation (Members / Pairs) is a function of the attributes only: the form is a dimension of the
+              cell space, FormDoesNotMatter says so.  The one place where a CALL differs from a record handed
+              over is C02's documented blank line: a logging call at severity Always (Print is nothing else) with a
+              blank message is that feature, not a record, whatever its arguments (BlankPrint - outside the domain
+              here: C02 defines "blank" by the message alone and owns the outcome).  Handed over through WriteThru
+              (a log/slog record of a non-standard level - the adapter maps it to Always -, a std-log bridge at
+              AlwaysLevel) a blank message at severity Always is a record like any other, attributes and all,
+     env    the process environment the record is formatted in (Envs below): "default", or "nocolor" = the
+              process-wide no-colour switch of github.com/hedzr/is is on (is.SetNoColorMode(true), what an
+              application's --no-color option / the NO_COLOR convention sets).  No clause of C04 / C05 / C06
+              mentions it: layout and colour hygiene must hold in it too (a completely plain record is
+              one way to satisfy C06 there; EnvDoesNotMatter),
      caller the caller member / field is switched on (flag Lcaller); then
      cfile  is the class of the special character inside the FILE NAME of the call site the
               record is attributed to ("plain": an ordinary POSIX path).  The file name comes out
@@ -29,6 +49,10 @@
               kind value kind (Kinds below; "group" has members in sub)
               vc   class of the special character inside a textual value
               v    value identity (which occurrence this is; lets "last one wins" be observed)
+              Values of kind time / times are instants in ANY zone: UTC, an offset of whole minutes, an offset
+              with a seconds part (every IANA zone before standard time: Europe/Amsterdam +00:19:32 until 1937);
+              "times with their exact value" = the decoded text denotes the same INSTANT (the harness enumerates
+              the three zone classes as representatives of the kind).
      name   [has, cls] the logger name,  sev/caller/width/minw presentation settings.
 
    Part A  escaping.  Every class is emitted as a short sequence of TOKENS:
@@ -41,7 +65,13 @@
            is the transcription of the library's only escaper (pc.go appendEscapedRune).
            Mode(fmt, c, form) names how an observed emission fails ("raw", "go-escape", ...).
            Invariants  Legal, OneLine, RoundTrip, NoForgery, NoRawControl  range over the
-           whole class table.  `MechIsJson` (expected to FAIL) shows that the Go-syntax
+           whole class table.  ColorUnsafe = what a terminal acts upon: the C0 controls, ESC, DEL AND the C1
+           controls - U+0080..U+009F in UTF-8 (class "C1": U+009B is CSI, the one-character form of ESC [) and a
+           lone byte 0x80..0x9f (class "C1raw": the 8-bit form of the same controls, not UTF-8).  LOGFMT TOKENS: a
+           logfmt reader knows two kinds of value - a quoted string, and a bare value that ENDS AT THE NEXT BLANK;
+           a slice value is read back from the text of ONE such token ([e1,e2,...]).  ListForms / ListOneToken say
+           which ways of writing a string slice stay one token for every character class; `BareListIsOneToken`
+           (expected to FAIL) is the form "[" quoted elements "]" written as a bare value.  `MechIsJson` (expected to FAIL) shows that the Go-syntax
            escaper cannot satisfy the JSON grammar and for which classes.  CallerRoundTrip: the
            same for the caller member over SiteClasses; `SymbolCopyIsLegal` (expected to FAIL)
            is the discipline "symbol-table strings are plain paths and identifiers - copy them
@@ -68,7 +98,9 @@
            a background colour, a text attribute}) and 1..4 message lines.  CRStream is the
            witness for the library's CR deviation, FgOnlyCloseStream the one for a discipline
            that writes the closing reset only when a foreground was opened (both expected to
-           fail).  Ign is an escape sequence with a malformed parameter list (ESC [ - 1 m): a
+           fail).  HalfSwitchStream is the witness for a library that honours the process-wide no-colour
+           switch (record field env) by halves - the wrap helpers write neither colour nor reset, the
+           "switch this on" helpers still write (expected to fail).  Ign is an escape sequence with a malformed parameter list (ESC [ - 1 m): a
            terminal ignores it, it changes no state.  The verdict on an observation is
            ResetAtBreak of the observed stream whatever lc is: lc widens the cell space (and
            names findings), it adds no clause.
@@ -93,15 +125,20 @@ VARIABLE flat           \* tree under construction, preorder: <<[d |-> depth, k 
 ----------------------------------------------------------------------------
 (* Part A: character classes and escaping *)
 
-Classes == {"plain", "space", "quote", "bslash", "LF", "CR", "TAB", "BSFF", "C0", "ESC", "DEL",
+Classes == {"plain", "space", "quote", "bslash", "LF", "CR", "TAB", "BSFF", "C0", "ESC", "DEL", "C1", "C1raw",
             "nonascii", "npbmp", "lsep", "astral", "astralnp", "invalid", "markup", "equals"}
 (* plain: ASCII letters/digits/punctuation without special meaning; BSFF: \b \f (JSON has
    short escapes for them); C0: every other byte < 0x20 except ESC (BEL, VT, NUL, ...);
-   npbmp: non-printable BMP (U+200B, U+0085, U+FEFF); lsep: U+2028/9; astral(np): (non-)
-   printable code points above U+FFFF; invalid: a byte that is not UTF-8; markup: < > &   *)
+   C1: the controls U+0080..U+009F encoded in UTF-8 (U+009B = CSI, U+0085 = NEL, U+0090 = DCS ...); C1raw: a
+   lone byte 0x80..0x9f - the 8-bit form of the same controls, which is not UTF-8;
+   npbmp: non-printable BMP outside the controls (U+200B, U+FEFF, U+00AD); lsep: U+2028/9; astral(np): (non-)
+   printable code points above U+FFFF; invalid: any other byte sequence that is not UTF-8 (no byte of it in
+   0x80..0x9f); markup: < > &   *)
 
-Control  == {"LF", "CR", "TAB", "BSFF", "C0", "ESC", "DEL"}       \* raw control bytes
-ValidUTF8(c) == c # "invalid"
+Control  == {"LF", "CR", "TAB", "BSFF", "C0", "ESC", "DEL"}       \* raw control bytes (7-bit)
+ColorUnsafe == Control \cup {"C1", "C1raw"}                       \* ... and the C1 controls: what a terminal acts upon
+Invalid  == {"invalid", "C1raw"}                                  \* not UTF-8
+ValidUTF8(c) == c \notin Invalid
 
 RawTok(c) == "R_" \o c
 IsRaw(t) == \E c \in Classes : RawTok(c) = t
@@ -114,7 +151,7 @@ AllH(s, a, b) == Len(s) >= b /\ \A i \in a..b : s[i] = "H"
 
 \* RFC 8259 section 7: unescaped = anything but quote, backslash and U+0000..U+001F (and the
 \* text must be UTF-8); escapes = \" \\ \/ \b \f \n \r \t \uXXXX
-JsonRawOK == Classes \ {"quote", "bslash", "LF", "CR", "TAB", "BSFF", "C0", "ESC", "invalid"}
+JsonRawOK == Classes \ ({"quote", "bslash", "LF", "CR", "TAB", "BSFF", "C0", "ESC"} \cup Invalid)
 JsonSimple == {"q", "bs", "sl", "b", "f", "n", "r", "t"}
 RECURSIVE JsonStr(_)
 JsonStr(s) ==
@@ -143,7 +180,7 @@ GoStrOver(s, rawok) ==
     ELSE FALSE
 GoStr(s) == GoStrOver(s, GoRawOK)
 \* colored console: C06 fixes no quoting, but a value must not contribute a raw control byte
-ColStr(s) == GoStrOver(s, Classes \ Control)
+ColStr(s) == GoStrOver(s, Classes \ ColorUnsafe)
 
 StrLegal(fmt, s) == CASE fmt = "json" -> JsonStr(s) [] fmt = "logfmt" -> GoStr(s) [] OTHER -> ColStr(s)
 
@@ -152,8 +189,8 @@ EscJSON(c) ==
     CASE c = "quote" -> {<<"BS", "q">>}  [] c = "bslash" -> {<<"BS", "bs">>}
       [] c = "LF" -> {<<"BS", "n">>, U4} [] c = "CR" -> {<<"BS", "r">>, U4} [] c = "TAB" -> {<<"BS", "t">>, U4}
       [] c = "BSFF" -> {<<"BS", "b">>, <<"BS", "f">>, U4}
-      [] c \in {"C0", "ESC", "invalid"} -> {U4}            \* invalid bytes: U+FFFD, not invertible
-      [] c \in {"lsep", "DEL", "npbmp"} -> {<<RawTok(c)>>, U4}
+      [] c \in {"C0", "ESC"} \cup Invalid -> {U4}          \* invalid bytes: U+FFFD, not invertible
+      [] c \in {"lsep", "DEL", "npbmp", "C1"} -> {<<RawTok(c)>>, U4}
       [] OTHER -> {<<RawTok(c)>>}
 \* transcription of pc.go appendQuotedWith/appendEscapedRune (Go syntax, strconv.Quote rules)
 EscMech(c) ==
@@ -161,8 +198,8 @@ EscMech(c) ==
       [] c = "LF" -> {<<"BS", "n">>} [] c = "CR" -> {<<"BS", "r">>} [] c = "TAB" -> {<<"BS", "t">>}
       [] c = "BSFF" -> {<<"BS", "b">>, <<"BS", "f">>}
       [] c = "C0" -> {<<"BS", "a">>, <<"BS", "v">>, X2}
-      [] c \in {"ESC", "DEL", "invalid"} -> {X2}
-      [] c \in {"npbmp", "lsep"} -> {U4}
+      [] c \in {"ESC", "DEL"} \cup Invalid -> {X2}
+      [] c \in {"npbmp", "lsep", "C1"} -> {U4}
       [] c = "astralnp" -> {U8}
       [] OTHER -> {<<RawTok(c)>>}
 EscGo(c) == EscMech(c)          \* for logfmt and colored values Go syntax IS what is called for
@@ -180,15 +217,15 @@ Decodes(f, c) ==
     \/ (f \in {<<"BS", "b">>, <<"BS", "f">>} /\ c = "BSFF")
     \/ (f \in {<<"BS", "a">>, <<"BS", "v">>} /\ c = "C0")
     \/ (f = X2 /\ c \in Control \cup {"plain", "space", "quote", "bslash", "markup", "equals"})
-    \/ (f = U4 /\ c \notin {"astral", "astralnp", "invalid"})
-    \/ (f = U8 /\ c # "invalid")
+    \/ (f = U4 /\ c \notin {"astral", "astralnp"} \cup Invalid)
+    \/ (f = U8 /\ c \notin Invalid)
 
 Formats == {"json", "logfmt", "color"}
 Legal        == \A fm \in Formats, c \in Classes : \A f \in Esc(fm, c) : StrLegal(fm, f)
 RoundTrip    == \A fm \in Formats, c \in Classes : ValidUTF8(c) => \A f \in Esc(fm, c) : Decodes(f, c)
 OneLine      == \A fm \in Formats, c \in Classes : \A f \in Esc(fm, c) : RawTok("LF") # f[1] /\ RawTok("CR") # f[1]
 NoForgery    == \A fm \in Formats : \A f \in Esc(fm, "quote") \cup Esc(fm, "bslash") : f[1] = "BS"
-NoRawControl == \A c \in Control : \A f \in Esc("color", c) : ~IsRaw(f[1])
+NoRawControl == \A c \in ColorUnsafe : \A f \in Esc("color", c) : ~IsRaw(f[1])
 \* witness (must be violated): the library's Go-syntax escaper used for JSON strings
 MechIsJson   == \A c \in Classes : \A f \in EscMech(c) : JsonStr(f)
 MechJsonBad  == {c \in Classes : \E f \in EscMech(c) : ~JsonStr(f)}
@@ -197,7 +234,7 @@ MechJsonBad  == {c \in Classes : \E f \in EscMech(c) : ~JsonStr(f)}
 \* position (`//line file:line`, `/*line file:line*/` - the block form even carries a line break).
 \* It refuses invalid UTF-8, NUL and U+FEFF: no class but "invalid" disappears (NUL is one
 \* representative of C0, U+FEFF one of npbmp).
-SiteClasses == Classes \ {"invalid"}
+SiteClasses == Classes \ Invalid
 QuotedFormats == {"json", "logfmt"}            \* caller.file is a quoted string there
 CallerRoundTrip == \A fm \in QuotedFormats, c \in SiteClasses :
                        ValidUTF8(c) /\ \A f \in Esc(fm, c) : StrLegal(fm, f) /\ Decodes(f, c)
@@ -213,6 +250,32 @@ Mode(fmt, c, f) ==
     ELSE IF IsRaw(f[1]) THEN "raw"
     ELSE IF f[1] = "BS" /\ Len(f) >= 2 /\ GoStrOver(f, Classes) THEN "go-escape"
     ELSE "garbled"
+
+\* LOGFMT TOKENS.  A logfmt reader splits a line at blanks: a value is a double-quoted string (which may hold
+\* blanks) or a BARE value that ends at the next blank.  The parse-back form of a SLICE value in the C05 model is:
+\* the text of ONE value token - bare or quoted and then unquoted - reads  [e1,e2,...]  with every element a
+\* quoted string or a bare run without blank, comma and bracket.  A way of writing a string slice:
+\*   outer  "bare" | "quoted"   the list text is written as it is / as one quoted (and escaped) value
+\*   elem   "quoted" | "bare"   the elements inside the brackets
+ListForms == [outer : {"bare", "quoted"}, elem : {"quoted", "bare"}]
+\* the tokens an element character of class c contributes to the line a logfmt reader splits
+ElemEmission(lf, c) == IF lf.elem = "quoted" \/ lf.outer = "quoted" THEN EscGo(c) ELSE {<<RawTok(c)>>}
+\* a BARE value is cut at a raw blank or line break, and a raw quote / '=' / control byte is none of its
+\* characters; inside a quoted outer value nothing is (the grammar GoStr of the whole value takes care)
+CutsBare == {"space", "LF", "CR", "TAB"}
+ListOneTokenFor(lf, c) ==
+    \A f \in ElemEmission(lf, c) :
+        IF lf.outer = "quoted" THEN GoStr(f)
+        ELSE ~(IsRaw(f[1]) /\ ClassOfRaw(f[1]) \in CutsBare) /\ (lf.elem = "quoted" => GoStr(f))
+ListOneToken(lf) == \A c \in Classes : ListOneTokenFor(lf, c)
+\* the forms C05 accepts for a slice of strings: the whole list as one quoted value
+AcceptedStrListForms == {lf \in ListForms : lf.outer = "quoted"}
+StrListsAreOneToken == \A lf \in AcceptedStrListForms : ListOneToken(lf)
+\* witness (must be violated): "[" Go-quoted elements "]" written as a BARE value - a blank inside an element
+\* is a blank of the line
+BareList == [outer |-> "bare", elem |-> "quoted"]
+BareListIsOneToken == ListOneToken(BareList)
+BareListBad == {c \in Classes : ~ListOneTokenFor(BareList, c)}
 
 ----------------------------------------------------------------------------
 (* Part B: attribute trees *)
@@ -422,6 +485,22 @@ FgOnlyCloseStream(cs, nlines) ==
 FgOnlyCloseIsClean == \A cs \in SevColours, nl \in 1..4 : ResetAtBreak(FgOnlyCloseStream(cs, nl), nl)
 FgOnlyCloseBad == {<<cs, nl>> \in SevColours \X (1..4) : ~ResetAtBreak(FgOnlyCloseStream(cs, nl), nl)}
 
+\* THE PROCESS ENVIRONMENT (record field env).  With the process-wide no-colour switch on, one half of a
+\* library's colouring (helpers that wrap a text in colour + reset) writes the bare text, while the other half
+\* (helpers that "switch a colour on" for what follows) still writes: the background / attribute of a level is
+\* switched on in front of every message line and nothing ever resets it.  Witness: must fail - exactly for the
+\* configurations that have a background / attribute.
+Envs == {"default", "nocolor"}
+Forms == {"thru", "call-attr", "call-kv"}
+BgOf(cs) == SelectSeq(cs, LAMBDA n : ~(n \in (30..37) \cup (90..97)))
+HalfSwitchStream(cs, nlines) ==
+    BgOf(cs) \o Cat([i \in 1..(nlines - 1) |-> <<Brk>> \o BgOf(cs)]) \o <<Brk>>
+HalfSwitchIsClean == \A cs \in SevColours, nl \in 1..4 : ResetAtBreak(HalfSwitchStream(cs, nl), nl)
+HalfSwitchBad == {<<cs, nl>> \in SevColours \X (1..4) : ~ResetAtBreak(HalfSwitchStream(cs, nl), nl)}
+\* a completely plain record satisfies the hygiene clause in every environment
+PlainStream(nlines) == [i \in 1..nlines |-> Brk]
+PlainIsClean == \A nl \in 1..4 : ResetAtBreak(PlainStream(nl), nl)
+
 ----------------------------------------------------------------------------
 (* Part D: verdict on one observed record *)
 
@@ -442,7 +521,11 @@ AcceptJSON(kind) ==
       [] kind = "fallback" -> {"string", "object", "array"}
       [] kind = "group" -> {"object"}
       [] OTHER -> {"array"}                                      \* slices
-\* logfmt: "every string-like value is quoted"
+\* logfmt: "every string-like value is quoted".  The harness reads a line the way a logfmt reader does: it is
+\* split at blanks outside quoted strings FIRST; the representation of a pair is that of its value token -
+\* "quoted", "bare" (no quote / control byte in it), "list" (a bare token whose text reads [e1,...,en]); the text
+\* of a quoted token is read as a list when a slice is expected (see LOGFMT TOKENS in Part A).  A slice written
+\* so that a blank of an element cuts the token comes back as a pair that matches nothing plus forged pairs.
 AcceptLogfmt(kind) ==
     CASE kind \in {"string", "error", "stringer", "bytes", "fallback", "textm"} -> {"quoted"}
       [] kind \in {"time", "duration", "nil", "bool", "complex"} \cup NumberKinds -> {"quoted", "bare"}
@@ -464,9 +547,9 @@ MembersMatch(exp, got) ==
             /\ got[j].k = exp[i].k
             /\ \A j2 \in DOMAIN got : got[j2].k = exp[i].k => j2 = j
             /\ got[j].rep \in AcceptJSON(exp[i].kind)
-            /\ (exp[i].kc = "invalid" \/ got[j].kx)             \* the key itself, byte for byte
+            /\ (exp[i].kc \in Invalid \/ got[j].kx)            \* the key itself, byte for byte
             /\ IF exp[i].kind = "group" THEN MembersMatch(exp[i].sub, got[j].sub)
-               ELSE exp[i].vc = "invalid" \/ Won(exp[i], got[j])
+               ELSE exp[i].vc \in Invalid \/ Won(exp[i], got[j])
 
 PairsMatchSet(exp, got, accept(_)) ==          \* each expected pair exactly once, nothing else
     /\ Len(exp) = Len(got)
@@ -476,7 +559,7 @@ PairsMatchSet(exp, got, accept(_)) ==          \* each expected pair exactly onc
             /\ \A j2 \in DOMAIN got : got[j2].path = exp[i].path => j2 = j
             /\ got[j].rep \in accept(exp[i].kind)
             /\ got[j].kx
-            /\ (exp[i].vc = "invalid" \/ Won(exp[i], got[j]))
+            /\ (exp[i].vc \in Invalid \/ Won(exp[i], got[j]))
 \* the one allowance for a reserved name (colored only - C04 / C05 exclude top-level reserved keys
 \* from their domain): a TOP-LEVEL attribute `time` holding a time.Time may be rendered in any way
 TopTimeWaived(p) == Len(p.path) = 1 /\ p.path[1] = TimeKey /\ p.kind = "time"
@@ -485,11 +568,17 @@ PairsMatchSeq(exp, got, accept(_)) ==          \* ... and in the stated (ascendi
     /\ \A i \in DOMAIN exp : /\ got[i].path = exp[i].path
                              /\ got[i].rep \in accept(exp[i].kind)
                              /\ got[i].kx
-                             /\ (exp[i].vc = "invalid" \/ Won(exp[i], got[i]) \/ TopTimeWaived(exp[i]))
+                             /\ (exp[i].vc \in Invalid \/ Won(exp[i], got[i]) \/ TopTimeWaived(exp[i]))
 
 HasKind(s, kind) == AnyLevel(s, LAMBDA q : \E i \in DOMAIN q : q[i].kind = kind)
 \* class of the call site's file name (records of older recordings carry none: an ordinary path)
 CFile(rec) == IF "cfile" \in DOMAIN rec THEN rec.cfile ELSE "plain"
+\* how the record reached the library / the process environment (records of older recordings and of the history
+\* component carry neither: a call with Attr values / mixed arguments in the default environment)
+Form(rec) == IF "form" \in DOMAIN rec THEN rec.form ELSE "call-attr"
+Env(rec) == IF "env" \in DOMAIN rec THEN rec.env ELSE "default"
+\* the expectation never reads them
+Without(rec, f) == [x \in DOMAIN rec \ {f} |-> rec[x]]
 \* o.callerok: line and function are those of the call site;  o.cfilert: the file member / field
 \* decodes to exactly slog.Safety(<file the runtime reports for the site>)
 CallerDiag(rec, o) == (IF rec.caller => o.callerok THEN {} ELSE {"caller"})
@@ -504,7 +593,8 @@ JsonDiag(rec, o) ==
     (IF o.nl = 1 /\ o.endnl THEN {} ELSE {"oneline"})
     \cup (IF o.valid THEN {} ELSE {"invalid-json"})
     \cup (IF ~o.valid THEN {}
-          ELSE (IF /\ \A f \in {"time", "level", "msg"} : Occurs(o.top, f) = 1
+          ELSE (IF "dups" \in DOMAIN o => o.dups = 0 THEN {} ELSE {"duplicate-member"})   \* a decoder keeps ONE member per name
+          \cup (IF /\ \A f \in {"time", "level", "msg"} : Occurs(o.top, f) = 1
                    /\ Occurs(o.top, "logger") = (IF rec.name.has THEN 1 ELSE 0)
                    /\ Occurs(o.top, "caller") = (IF rec.caller THEN 1 ELSE 0)
                    /\ Occurs(o.top, "unknown") = 0
@@ -540,9 +630,9 @@ LogfmtDiag(rec, o) ==
 \* carries a control character (it is the program's own source position, not an input of the
 \* record) is judged for colour hygiene alone.
 LayoutClasses == {"plain", "space", "quote", "bslash", "nonascii", "astral", "equals", "LF"}
-CallerCtlFree(rec) == rec.caller => CFile(rec) \notin Control
+CallerCtlFree(rec) == rec.caller => CFile(rec) \notin ColorUnsafe
 InLayoutDomain(rec) == (\A i \in DOMAIN rec.msg : rec.msg[i] \in LayoutClasses) /\ CallerCtlFree(rec)
-MsgCtlFree(rec) == \A i \in DOMAIN rec.msg : rec.msg[i] \notin Control \ {"LF"}
+MsgCtlFree(rec) == \A i \in DOMAIN rec.msg : rec.msg[i] \notin ColorUnsafe \ {"LF"}
 TrailingLF(msg) == LET RECURSIVE T(_)
                        T(m) == IF m # <<>> /\ m[Len(m)] = "LF" THEN 1 + T(SubSeq(m, 1, Len(m) - 1)) ELSE 0
                    IN T(msg)
@@ -569,8 +659,9 @@ ColorDiag(rec, o) ==
                 \cup (IF rec.name.has = o.hasname /\ (rec.name.has => o.namert) THEN {} ELSE {"logger"})
                 \cup (IF o.tagw = rec.width /\ o.tagok THEN {} ELSE {"level-tag"})
                 \cup (IF o.firstrt THEN {} ELSE {"first-line"})
-                \cup (IF \E x \in 0..LeadGroups(Members(rec)) :
-                            o.padb = Max(o.lenb, rec.minw) + x \/ o.padr = Max(o.lenr, rec.minw) + x
+                \* "padded to the minimal width": the width is what the reader sees - CHARACTERS (code points; no
+                \* East-Asian display width is attempted), not the bytes of their encoding: lenr / padr count runes
+                \cup (IF \E x \in 0..LeadGroups(Members(rec)) : o.padr = Max(o.lenr, rec.minw) + x
                       THEN {} ELSE {"padding"})
                 \cup (IF PairsMatchSeq(Pairs(rec), o.pairs, AcceptColor) THEN {} ELSE {"pairs"})
                 \cup (IF rec.caller = o.hascaller /\ (rec.caller => o.callerok) THEN {} ELSE {"caller"})
@@ -586,9 +677,13 @@ Diag(rec, o) == CASE rec.fmt = "json" -> JsonDiag(rec, o)
                   [] OTHER -> ColorDiag(rec, o)
 
 \* the input domain of each property (records outside are skipped, never judged).
-\* TOP-LEVEL ATTRIBUTES NAMED LIKE A BUILT-IN MEMBER (time, level, msg, logger, caller - ReservedIds): the quantifiers of
-\* C04 ("all attribute keys other than the four reserved field names") and C05 ("... other than the reserved names")
-\* exclude them, so a JSON / logfmt record that carries one is skipped here whatever it looks like (which of two members
+\* TOP-LEVEL ATTRIBUTES NAMED LIKE A BUILT-IN MEMBER.  The quantifier of C04 excludes "the four reserved field names":
+\* the library declares exactly four field-name constants (slog/cmn.go: timestampFieldName "time", levelFieldName "level",
+\* callerFieldName "caller", messageFieldName "msg") - FourReserved.  `logger` is NOT one of them (a literal in
+\* printLoggerName; the README itself logs With("logger", ...)): a top-level attribute keyed `logger` is INSIDE C04 - the
+\* record must decode to the logger name if any AND to that attribute, and a decoder keeps one member per name (clause
+\* "duplicate-member").  C05 says "other than the reserved names" without a number: all five names stay outside there.  A JSON
+\* / logfmt record that carries an excluded top-level key is skipped here whatever it looks like (which of two members
 \* of one name a reader gets is not a claim of C04 / C05).  The one reserved name another property speaks about is
 \* `caller`: C14 demands that the record REPORTS the call site - Caller.tla (dimension ua) states what a last-wins
 \* reader must find under that name when the record, the logger or a handler carries an attribute keyed `caller`.
@@ -598,10 +693,36 @@ RECURSIVE KeysLegal(_, _)
 KeysLegal(fmt, s) == \A i \in DOMAIN s :
     /\ (fmt # "json" => s[i].k # 0 /\ s[i].kc \in {"plain", "nonascii", "astral", "markup", "bslash"})
     /\ (s[i].kind = "group" => KeysLegal(fmt, s[i].sub))
+\* Escape bytes that reach a colored payload VERBATIM from outside the record's message and attribute values: the file name
+\* of the call site (the program's own source position) and, in a go-test process, the dump of an error text (C06 exempts the
+\* dump from the raw-control clause).  In the default environment the record's own closing resets happen to undo them and
+\* the hygiene clause is judged as for any record.  With the no-colour switch on the library writes NO escape sequence
+\* at all - that is what the switch is for - so it cannot switch off what it never switched on: like a message that
+\* carries escape bytes (excluded by the quantifier of C06), such a record is outside the hygiene claim there.
+RECURSIVE HasErrEsc(_)
+HasErrEsc(s) == \E i \in DOMAIN s : \/ (s[i].kind = "error" /\ s[i].vc = "ESC")
+                                     \/ (s[i].kind = "group" /\ HasErrEsc(s[i].sub))
+ForeignEsc(rec) == (rec.caller /\ CFile(rec) = "ESC") \/ (rec.testing /\ HasErrEsc(rec.attrs))
+FourReserved == ReservedIds \ {97}
+TopExcluded(fmt) == IF fmt = "json" THEN FourReserved ELSE IF fmt = "logfmt" THEN ReservedIds ELSE {}
+\* C02's documented blank line: a logging CALL at severity Always = 8 (Print / Println and their Context and package-level
+\* forms are exactly that) whose message is empty or made of blanks and line breaks is delivered as one newline byte -
+\* not a record.  C02 states it for every argument list ("blank" is said of the message), so the arguments do not matter
+\* here either.  As a finished record handed over through WriteThru it is a record.
+AlwaysSev == 8
+BlankMsg(msg) == \A i \in DOMAIN msg : msg[i] \in {"space", "LF", "CR", "TAB"}
+BlankPrint(rec) == rec.sev = AlwaysSev /\ BlankMsg(rec.msg) /\ Form(rec) # "thru"
 InDomain(rec) ==
     /\ KeysLegal(rec.fmt, rec.attrs)
     /\ rec.caller => CFile(rec) \in SiteClasses
-    /\ rec.fmt # "color" => ~HasTopReserved(rec.attrs)       \* "all keys other than the reserved field names"
+    /\ KeysOf(rec.attrs) \cap TopExcluded(rec.fmt) = {}      \* "all keys other than the (four) reserved field names"
+    /\ ~BlankPrint(rec)
     /\ rec.fmt # "color" => ~HasKind(rec.attrs, "textm")      \* user marshallers are outside C04/C05
     /\ rec.fmt = "color" => "ESC" \notin {rec.msg[i] : i \in DOMAIN rec.msg}
+    /\ rec.fmt = "color" /\ Env(rec) = "nocolor" => ~ForeignEsc(rec)
+\* neither the form in which a record reached the library nor the process environment is read by any expectation
+FormDoesNotMatter == \A rec \in {[fmt |-> "json", sev |-> 4, msg |-> <<"plain">>, attrs |-> Tree, form |-> f, env |-> e] :
+                                   f \in Forms, e \in Envs} :
+                         /\ Members(rec) = Merge(Tree) /\ Pairs(rec) = Flat(Merge(Tree), <<>>)
+                         /\ Members(rec) = Members(Without(Without(rec, "form"), "env"))
 =============================================================================
